@@ -167,6 +167,20 @@ fn near_miss(r: &mut Rng, v: &V) -> V {
     }
 }
 
+/// replace every non-negative `int` value (at a position whose declared type is int) by the equal `nat` value
+fn nat_for_int(env: &Env, v: &V, t: &T, fuel: u32) -> V {
+    if fuel == 0 { return v.clone(); }
+    let t = match crate::val::trace(env, t) { Some(t) => t, None => return v.clone() };
+    match (v, t) {
+        (V::Int(z), T::Prim("int")) => match z.to_biguint() { Some(n) => V::Nat(n), None => v.clone() },
+        (V::Opt(Some(x)), T::Opt(t1)) => V::Opt(Some(Box::new(nat_for_int(env, x, t1, fuel - 1)))),
+        (V::Vec(xs), T::Vec(t1)) => V::Vec(xs.iter().map(|x| nat_for_int(env, x, t1, fuel - 1)).collect()),
+        (V::Rec(fs), T::Rec(ts)) => V::Rec(fs.iter().map(|(i, x)| match ts.iter().find(|f| f.0 == *i) { Some(f) => (*i, nat_for_int(env, x, &f.1, fuel - 1)), None => (*i, x.clone()) }).collect()),
+        (V::Variant(i, x), T::Variant(ts)) => match ts.iter().find(|f| f.0 == *i) { Some(f) => V::Variant(*i, Box::new(nat_for_int(env, x, &f.1, fuel - 1))), None => v.clone() },
+        _ => v.clone(),
+    }
+}
+
 pub fn generate(prop: &str, thorough: bool, r: &mut Rng, em: &mut Emit) {
     let scale = if thorough { 15 } else { 1 };
     for round in 0..200 * scale {
@@ -192,7 +206,14 @@ pub fn generate(prop: &str, thorough: bool, r: &mut Rng, em: &mut Emit) {
                     let b = encode_untyped(&vs);
                     em.case_nt("c03.wf_untyped", &[vlist(&vs), b.map(|b| sx::hex(&b)).unwrap_or("err".into())], big);
                 } else { em.stat("untyped.skipped-non-uniform"); }
-                // fewer values than types, and near-miss values: typed encoding must refuse, never emit a message
+                // the same values handed over in their subtype representation: a non-negative int given as a nat value
+                // (annotation converts it; what is written must be SLEB128 under the declared int)
+                let vs2: Vec<V> = vs.iter().zip(&ts).map(|(v, t)| nat_for_int(&env, v, t, 6)).collect();
+                if vs2 != vs {
+                    em.stat("nat-value-at-int");
+                    let b = encode_typed(&env, &ts, &vs2);
+                    em.case_nt("c03.wf", &[es.clone(), tys_sx(&ts), vlist(&vs2), b.map(|b| sx::hex(&b)).unwrap_or("err".into())], true);
+                }
                 let mut bad = vs.clone(); let k = r.below(bad.len() as u64) as usize; bad[k] = near_miss(r, &bad[k]);
                 if !matches!((&bad[k], &vs[k]), (V::F64(_), _)) {
                     let b = encode_typed(&env, &ts, &bad);
